@@ -165,6 +165,19 @@ func denseSCC(g *ref.Graph, limit int) bool {
 // c12Run is the single entry point used by the rapid parts, the corpus replay and the
 // native fuzz target. It returns "" when the run obeyed the contract, a violation
 // description otherwise, and a label of how far the input got.
+// c12BuildVersion: the build version the in-process command is constructed with is part of the input
+// (shape/5 selects it): releases, a pre-release with build metadata, semver shorthands, non-semantic names.
+var c12BuildVersions = []string{"0.1.0", "1.4.2", "v1.4.2", "2.0.0-rc.1+b.5", "1", "v0", "1.4", "dev-main", "", "v"}
+
+func c12BuildVersion(shape uint8) string { return c12BuildVersions[int(shape/5)%len(c12BuildVersions)] }
+
+// c12VersionLines: declared versions in every shape (YAML kinds, shorthands, prefixes, suffixes, oversized numbers).
+var c12VersionLines = []string{
+	`"1"`, `"0"`, `"1.4"`, `"0.1"`, `"v1"`, `"v1.4.2"`, `1.4.2`, `0.1.0`, `"1.4.2-rc.1"`, `"1.4.2+b"`, `"1.4.2-"`, `"1.4.2+"`, `"1..2"`, `"1.4.2.1"`, `".1"`, `"1."`,
+	`""`, `" "`, `"-"`, `"+"`, `"."`, `1`, `1.4`, `-1`, `~`, `[]`, `{}`, `["1"]`, `{a: 1}`, `"01.4.2"`, `"1.04.2"`, `"99999999999999999999.1.1"`, `"1.99999999999999999999.0"`,
+	`"1.4.2-rc..1"`, `"1.4.2-01"`, `"１.4.2"`, `"1.4.2\n"`, `!!str 1`, `!!int "1"`, `true`, `0x1`, `1e3`, `"1e3"`, `.inf`,
+}
+
 func c12Run(c c12Case) (violationKey, what, reached string) {
 	c12Env()
 	if len(c.Data) > 64<<10 {
@@ -211,8 +224,9 @@ func c12Run(c c12Case) (violationKey, what, reached string) {
 		abs = append(abs, dir+"/"+p)
 	}
 	flags := c12Flags(c.Flags)
+	bv := c12BuildVersion(c.Shape)
 	done := make(chan sut.Result, 1)
-	go func() { done <- sut.RunInproc("0.1.0", "verif", sut.BuildArgs(abs, out, flags)...) }()
+	go func() { done <- sut.RunInproc(bv, "verif", sut.BuildArgs(abs, out, flags)...) }()
 	var r sut.Result
 	select {
 	case r = <-done:
@@ -234,7 +248,7 @@ func c12Run(c c12Case) (violationKey, what, reached string) {
 		// the step table is not printed with --quiet: classify the input by a second, verbose run to a scratch path
 		nq := flags
 		nq.Quiet = false
-		r2 := sut.RunInproc("0.1.0", "verif", sut.BuildArgs(abs, out+".classify", nq)...)
+		r2 := sut.RunInproc(bv, "verif", sut.BuildArgs(abs, out+".classify", nq)...)
 		for _, s := range sut.ParseReport(r2.Stdout).Steps {
 			if s.Depth == 0 && s.HasEnd {
 				reached = s.Name
@@ -534,6 +548,16 @@ func TestC12(t *testing.T) {
 	for _, s := range specialFormBoundaries() {
 		seeds = append(seeds, []byte(s))
 	}
+	// declared versions of every shape x every build version (shape/5 selects the build version)
+	for vi, vl := range c12VersionLines {
+		for b := range c12BuildVersions {
+			idx++
+			if !ev.Mine(idx) {
+				continue
+			}
+			c12Eval(t, c12Case{Data: []byte("version: " + vl + "\nparameters: {a: 1}\n"), Flags: uint8(vi+b) % 16, Shape: uint8(5 * b), Label: "version-forms"})
+		}
+	}
 	for i, s := range seeds {
 		for shape := uint8(0); shape < 4; shape++ {
 			idx++
@@ -572,7 +596,7 @@ func TestC12(t *testing.T) {
 		for _, k := range kinds {
 			col.Label("confusion:" + k)
 		}
-		c12Eval(rt, c12Case{Data: []byte(text), Flags: uint8(rapid.IntRange(0, 15).Draw(rt, "flags")), Shape: uint8(rapid.IntRange(0, 3).Draw(rt, "shape")), Label: "node-confusion"})
+		c12Eval(rt, c12Case{Data: []byte(text), Flags: uint8(rapid.IntRange(0, 15).Draw(rt, "flags")), Shape: uint8(rapid.IntRange(0, 3).Draw(rt, "shape") + 5*rapid.IntRange(0, len(c12BuildVersions)-1).Draw(rt, "build")), Label: "node-confusion"})
 	})
 
 	// (c) arbitrary glob patterns and flag subsets on a valid file
